@@ -431,8 +431,16 @@ fn write_std(
 ) -> WriteResult {
     let start_pos = f.pos()?;
 
+    // Object indices and counts are 16 bits wide (and index 0xffff marks the end of the instance list).
+    let num_quads = std.objects.values().map(|x| x.quads.len()).sum::<usize>();
+    if std.objects.len() > 0xffff || num_quads > 0xffff {
+        return Err(emitter.emit(error!(
+            "too many objects or quads for the STD format ({} objects, {} quads; the limit is 65535 each)",
+            std.objects.len(), num_quads,
+        )));
+    }
     f.write_u16(std.objects.len() as u16)?;
-    f.write_u16(std.objects.values().map(|x| x.quads.len()).sum::<usize>() as u16)?;
+    f.write_u16(num_quads as u16)?;
 
     let instances_offset_pos = f.pos()?;
     f.write_u32(0)?;
